@@ -1,1 +1,4 @@
-fn main() { vf_kit::hello(); }
+fn main() {
+    eprintln!("no sub-commands yet");
+    std::process::exit(2);
+}
